@@ -11,7 +11,7 @@ from gen import corpus
 
 SYS_FLAGS = ["\\Seen", "\\Answered", "\\Flagged", "\\Deleted", "\\Draft"]
 TAME_KW = ["$Forwarded", "NonJunk", "kw1"]
-WILD_KW = ["a.b", "x-y", "a:b", "1", "not", "cur", "kw_2", "$MDNSent", "all", "first", "last"]  # odd but valid atoms (names that ARE MH sequence names of system flags: see ALIAS_KW)
+WILD_KW = ["a.b", "x-y", "a:b", "1", "not", "cur", "kw_2", "$MDNSent", "all", "first", "last", "caf\u00e9"]  # odd but valid atoms (names that ARE MH sequence names of system flags: see ALIAS_KW)
 ALIAS_KW = ["Seen", "unseen", "replied", "flagged", "Recent", "Deleted", "Draft"]
 FLAG_KEYS = ["ALL", "SEEN", "UNSEEN", "FLAGGED", "UNFLAGGED", "DELETED", "UNDELETED", "ANSWERED", "UNANSWERED", "DRAFT", "UNDRAFT"]
 LAT_PROFILES = ["zero", "small", "bimodal", "slow", "wide"]
@@ -36,7 +36,9 @@ def initial_store(r, names, lo=0, hi=8, sparse=False, kw=TAME_KW, shapes=None, t
             key += 1 if not sparse else r.choice((1, 1, 2, 3, 5))
             fl = [f for f in SYS_FLAGS if r.random() < 0.25]
             if kw and r.random() < 0.3:
-                fl.append(r.choice(kw))
+                k = r.choice(kw)
+                if k.isascii():  # (the store is written as an MH tool would: .mh_sequences is ASCII)
+                    fl.append(k)
             msgs.append(
                 {
                     "tok": tok, "key": key, "flags": fl, "date": 1_690_000_000 + tok * 977,
